@@ -44,6 +44,25 @@ def fromCurie (cls : RefClass) (s : Str) (name : Option Str := none) (conv : Opt
           | none => .error .validation
       | none => .ok { cls, pfx := p, ident := i, name := nm }
 
+/-- `cls.from_reference(reference, converter=…)` for the three pydantic classes: the pair (and, for the
+named classes, the name of a namable argument) is validated again, with the converter as context;
+`NamedReference.from_reference` of an argument without a name field is a `TypeError` -/
+def fromReference (cls : RefClass) (r : Ref) (conv : Option Conv := none) : Except Err Ref :=
+  let namable := r.cls == .namable || r.cls == .named
+  if cls == .named && !namable then .error .typeError
+  else
+    let name := if namable then r.name else none
+    if cls == .named && name.isNone then .error .validation
+    else
+      let nm := if cls == .tuple || cls == .reference then none else name
+      match conv with
+      | some c =>
+        if cls == .tuple then .ok { cls, pfx := r.pfx, ident := r.ident, name := nm }
+        else match Dict.get c.synToPrefix r.pfx with
+          | some q => .ok { cls, pfx := q, ident := r.ident, name := nm }
+          | none => .error .validation
+      | none => .ok { cls, pfx := r.pfx, ident := r.ident, name := nm }
+
 /-- `a == b` -/
 def eq (a b : Ref) : Bool :=
   if a.isPydantic && b.isPydantic then a.pfx == b.pfx && a.ident == b.ident
